@@ -186,7 +186,7 @@ func Literal(cfg *Config, word *syntax.Word) (string, error) {
 		return "", nil
 	}
 	cfg = prepareConfig(cfg)
-	field, err := cfg.wordField(word.Parts, quoteNone)
+	field, err := cfg.wordField(word.Parts, quoteNoneLiteral)
 	if err != nil {
 		return "", err
 	}
@@ -540,6 +540,11 @@ const (
 	quoteDouble
 	quoteHeredoc
 	quoteSingle
+
+	// quoteNoneLiteral is like quoteNone when expanding a word into a plain
+	// string rather than a pattern: backslash escapes in unquoted literals
+	// undergo quote removal. It is never used as the quote level of a field part.
+	quoteNoneLiteral
 )
 
 func (cfg *Config) wordField(wps []syntax.WordPart, ql quoteLevel) ([]fieldPart, error) {
@@ -548,12 +553,24 @@ func (cfg *Config) wordField(wps []syntax.WordPart, ql quoteLevel) ([]fieldPart,
 		switch wp := wp.(type) {
 		case *syntax.Lit:
 			s := wp.Value
-			if i == 0 && ql == quoteNone {
+			if i == 0 && (ql == quoteNone || ql == quoteNoneLiteral) {
 				if prefix, rest := cfg.expandUser(s, len(wps) > 1); prefix != "" {
 					// TODO: return two separate fieldParts,
 					// like in wordFields?
 					s = prefix + rest
 				}
+			}
+			if ql == quoteNoneLiteral && strings.Contains(s, "\\") {
+				sb := cfg.strBuilder()
+				for i := 0; i < len(s); i++ {
+					b := s[i]
+					if b == '\\' && i+1 < len(s) {
+						i++
+						b = s[i] // write the escaped char, skipping the backslash
+					}
+					sb.WriteByte(b)
+				}
+				s = sb.String()
 			}
 			if (ql == quoteDouble || ql == quoteHeredoc) && strings.Contains(s, "\\") {
 				sb := cfg.strBuilder()
